@@ -70,6 +70,18 @@ class C04(FprCheck):
                 runs.append(r)
                 last = r
             yield {"t": "hist", "pool": pool, "opts": o, "runs": runs}
+        # mirror-image conformers of ONE molecule object submitted directly one after the other to one fingerprinter: all interatomic
+        # distances are equal, the stereo identifiers are not (scale -1 is the inversion through the origin)
+        for _ in range(4 if self.tier == "quick" else 50):
+            o = MG.gen_opts(rng)
+            o["stereo"] = True
+            o["level"] = rng.choice([2, 3, 5])
+            pool = [dict(rng.choice([r_ for r_ in refs if "sdf" in r_ or "smiles" in r_]), scales=[1.0, -1.0, 0.8, -0.8])]
+            all_levels = [{"level": k, "bits": None, "mask": []} for k in list(range(0, 10)) + [-1]]
+            seq = rng.choice([[0, 1, 0], [1, 0, 1, 3, 2], [2, 3, 3, 2], [0, 1, 2, 3, 1]])
+            form = rng.choice(["id_mol", "obj_mol"])
+            self.count("mirror-image-conformers")
+            yield {"t": "hist", "pool": pool, "opts": o, "runs": [{"mol": 0, "conf": c_, "form": form, "queries": all_levels} for c_ in seq]}
         # the entry point every pipeline function goes through: successive calls in one process, the molecule object
         # edited in place between calls (isotope label, formal charge), other molecules in between; plus two threads
         for _ in range(8 if self.tier == "quick" else 60):
